@@ -23,6 +23,11 @@ impl Monitor for Mon {
             stats.bump("probe.foreign-panic");
             return None;
         }
+        if w.env.borrow().unspecified_seen > 0 {
+            // a frame the statements are silent about was heard: the reference cannot follow the device
+            stats.bump("probe.stood-down-after-unspecified-frame");
+            return None;
+        }
         let is_join = matches!(rec.op, Op::Join(_));
         if !is_join && !matches!(rec.op, Op::Send { .. }) {
             return None;
